@@ -1372,7 +1372,7 @@ const CONTROLS: &[&str] = &[
 const VALUES: &[&str] = &[
   "0", "1", "-1", "23", "24", "255", "18446744073709551615", "-18446744073709551616", "18446744073709551616", "99999999999999999999999999", "0x10", "0xFFFFFFFFFFFFFFFF", "0x10000000000000000",
   "0b101", "-0x1", "1.5", "-0.0", "1e3", "1e400", "1.0e-400", "0x1p4", "0x1.8p1", "-0x1p-2", "\"\"", "\"a\"", "\"a\\\"b\"", "\"\\u00e9\"", "\"\\u{1F600}\"", "\"\\ud800\"", "\"\\u{110000}\"", "\"line\\nbreak\"",
-  "h''", "h'00ff'", "h'0'", "h'zz'", "h'00 ff'", "h'4342 ; trailing note'", "h'43 ;c\n42'", "b64'EjRWeA ;x'", "h';x'", "h'00\n11'", "h' 00'", "h'00 '", "b64'aGVs\n bG8'", "';not a comment'", "'bytes'", "''", "b64''", "b64'aGVsbG8'", "b64'!!!'", "h\"00ff\"", "'it\\'s'",
+  "\"é\\\"\"", "\"日\\\\本\"", "\"ß\\nz\"", "\"a\\\"é\\tb\"", "h''", "h'00ff'", "h'0'", "h'zz'", "h'00 ff'", "h'4342 ; trailing note'", "h'43 ;c\n42'", "b64'EjRWeA ;x'", "h';x'", "h'00\n11'", "h' 00'", "h'00 '", "b64'aGVs\n bG8'", "';not a comment'", "'bytes'", "''", "b64''", "b64'aGVsbG8'", "b64'!!!'", "h\"00ff\"", "'it\\'s'",
 ];
 
 pub fn rand_ident(r: &mut Rng, names: &[String]) -> String {
@@ -2030,7 +2030,7 @@ pub fn numeric_edge_case(r: &mut Rng) -> (String, Doc) {
 // target types it is meant for (and some it is not), against documents with non-ASCII text, boundary
 // lengths and edge numbers
 
-const NONASCII_TEXTS: &[&str] = &["", "a", "abc", "ééé", "日本", "😀", "€", "a\u{301}", "ｆｕｌｌ", "\u{feff}x", "Ωmega-3", "ß", "12", "-7", "0", "1e3", "SGVsbG8", "68656c6c6f", "00ff", "JBSWY3DP", "A B", "%", "%%", "%d", "\n", "\t"];
+const NONASCII_TEXTS: &[&str] = &["", "a", "abc", "ééé", "日本", "😀", "€", "é\"q", "日\\本", "ß\nz", "😀\t€", "\"é\"", "a\\é\"", "a\u{301}", "ｆｕｌｌ", "\u{feff}x", "Ωmega-3", "ß", "12", "-7", "0", "1e3", "SGVsbG8", "68656c6c6f", "00ff", "JBSWY3DP", "A B", "%", "%%", "%d", "\n", "\t"];
 
 pub fn control_matrix_case(r: &mut Rng) -> (String, Doc) {
   let lit = |s: &str| cddl_text_literal(s);
